@@ -98,6 +98,20 @@ pub const ANALYZE_ONLY: Opts = Opts { for_wasm: false, generate_ir: false, link:
 /// Also returns the raw `Error` values of a rejection (for rendering checks).
 pub fn alpha_pipeline_raw(files: &[(String, String)], opts: Opts) -> (Verdict, Vec<Error>)
 {
+	let (v, e, _) = alpha_pipeline_all(files, opts);
+	(v, e)
+}
+
+/// Also returns the resolved declarations of every module of an accepted program.
+pub fn alpha_pipeline_resolved(files: &[(String, String)], opts: Opts) -> (Verdict, Option<Vec<Vec<penne::alpha::resolved::Declaration>>>)
+{
+	let (v, _, r) = alpha_pipeline_all(files, opts);
+	let r = if v.accepted() { Some(r) } else { None };
+	(v, r)
+}
+
+pub fn alpha_pipeline_all(files: &[(String, String)], opts: Opts) -> (Verdict, Vec<Error>, Vec<Vec<penne::alpha::resolved::Declaration>>)
+{
 	let mut modules = Vec::new();
 	for (name, source) in files
 	{
@@ -112,7 +126,7 @@ pub fn alpha_pipeline_raw(files: &[(String, String)], opts: Opts) -> (Verdict, V
 		if let Err(errors) = resolver::check_surface_level_errors(declarations)
 		{
 			let raw: Vec<Error> = errors.errors;
-			return (Verdict::Rejected { stage: "surface", diags: raw.iter().map(diag_of).collect() }, raw);
+			return (Verdict::Rejected { stage: "surface", diags: raw.iter().map(diag_of).collect() }, raw, Vec::new());
 		}
 	}
 	let mut compiler = Compiler::default();
@@ -120,23 +134,24 @@ pub fn alpha_pipeline_raw(files: &[(String, String)], opts: Opts) -> (Verdict, V
 	{
 		if let Err(e) = compiler.for_wasm()
 		{
-			return (Verdict::InternalError(e.to_string()), Vec::new());
+			return (Verdict::InternalError(e.to_string()), Vec::new(), Vec::new());
 		}
 	}
 	let mut irs = Vec::new();
 	let mut all_lints = Vec::new();
+	let mut all_resolved = Vec::new();
 	for (path, declarations) in modules
 	{
 		let name = path.to_string_lossy().to_string();
 		let declarations = scoper::analyze(declarations);
 		if let Err(e) = compiler.add_module(&name)
 		{
-			return (Verdict::InternalError(e.to_string()), Vec::new());
+			return (Verdict::InternalError(e.to_string()), Vec::new(), Vec::new());
 		}
 		let resolved = match compiler.analyze_and_resolve(declarations)
 		{
 			Ok(r) => r,
-			Err(e) => return (Verdict::InternalError(e.to_string()), Vec::new()),
+			Err(e) => return (Verdict::InternalError(e.to_string()), Vec::new(), Vec::new()),
 		};
 		let declarations = match resolved
 		{
@@ -144,7 +159,7 @@ pub fn alpha_pipeline_raw(files: &[(String, String)], opts: Opts) -> (Verdict, V
 			Err(errors) =>
 			{
 				let raw: Vec<Error> = errors.errors;
-				return (Verdict::Rejected { stage: "analysis", diags: raw.iter().map(diag_of).collect() }, raw);
+				return (Verdict::Rejected { stage: "analysis", diags: raw.iter().map(diag_of).collect() }, raw, Vec::new());
 			}
 		};
 		let lints = compiler.take_lints();
@@ -157,33 +172,34 @@ pub fn alpha_pipeline_raw(files: &[(String, String)], opts: Opts) -> (Verdict, V
 		{
 			if let Err(e) = compiler.compile(&declarations)
 			{
-				return (Verdict::InternalError(e.to_string()), Vec::new());
+				return (Verdict::InternalError(e.to_string()), Vec::new(), Vec::new());
 			}
 			match compiler.generate_ir()
 			{
 				Ok(ir) => irs.push(ir),
-				Err(e) => return (Verdict::InternalError(e.to_string()), Vec::new()),
+				Err(e) => return (Verdict::InternalError(e.to_string()), Vec::new(), Vec::new()),
 			}
 		}
 		else
 		{
 			irs.push(String::new());
 		}
+		all_resolved.push(declarations);
 	}
 	let mut linked = None;
 	if opts.generate_ir && opts.link
 	{
 		if let Err(e) = compiler.link_modules()
 		{
-			return (Verdict::InternalError(e.to_string()), Vec::new());
+			return (Verdict::InternalError(e.to_string()), Vec::new(), Vec::new());
 		}
 		match compiler.generate_ir()
 		{
 			Ok(ir) => linked = Some(ir),
-			Err(e) => return (Verdict::InternalError(e.to_string()), Vec::new()),
+			Err(e) => return (Verdict::InternalError(e.to_string()), Vec::new(), Vec::new()),
 		}
 	}
-	(Verdict::Ok { irs, linked, lints: all_lints }, Vec::new())
+	(Verdict::Ok { irs, linked, lints: all_lints }, Vec::new(), all_resolved)
 }
 
 pub fn alpha_pipeline(files: &[(String, String)], opts: Opts) -> Verdict
